@@ -238,6 +238,17 @@ def minimise_many(cases: list[dict], fails: Callable[[list[dict]], bool], budget
         return c
 
     attempt(each(drop_idle), "drop-idle-callers")
+
+    # queries no remaining op refers to (indices stay stable: the entry becomes a placeholder)
+    def drop_unused_queries(c: dict) -> dict:
+        used = {spec.get("q") for rnd in c["rounds"] for sc in rnd["scripts"].values() for spec in sc if "q" in spec}
+        for qi, q in enumerate(c.get("queries") or []):
+            if qi not in used:
+                c["queries"][qi] = {"g": 10**6, "X": [], "Y": []}
+        return c
+
+    if cur[0].get("queries"):
+        attempt(each(drop_unused_queries), "drop-unused-queries")
     # 5. evolve steps
     for r, rnd in enumerate(cur[0]["rounds"]):
         for field in ("evolve", "evolve_results"):
